@@ -141,6 +141,38 @@ def check(res, tier, seed):
             res.violation("resolve-correspondence", "Resolve.v (fixed) predicts a different outcome than the implementation for %r (argc %d) against %s: the correspondence Resolve.resolve <-> findMethodByFunctionCallPathRecursively no longer checks" % (c["fn"], c["argc"], root),
                           dict(kind="resolve", correspondence="ResolveCheck.rmismatches fixed", case=c, theorems=res.coverage.get("theorems")),
                           no_failing_input=(monitor_hits == 0))
+    if pid == "C06":
+        # arbitrary frames from a raw peer on one link of a hub; a sibling link is probed in between
+        nrec = 8 if tier == "quick" else 150
+        frecs, frc, fout = C.run_job(binary, wd, "peerfuzz", dict(family="peerfuzz", seed=seed, n=nrec, params=dict(percase=60)), timeout=600)
+        nfuzz = 0
+        fdist = collections.Counter()
+        if frc != 0:
+            monitor_hits += 1
+            line = next((l for l in fout.splitlines() if l.startswith("panic:") or "fatal error" in l), (fout.strip().splitlines() or ["?"])[-1])
+            last = frecs[-1]["cases"][-1] if frecs and frecs[-1].get("cases") else None
+            res.violation("peerfuzz-crash", "the process died while a raw peer was sending frames: %s" % line[:300], dict(kind="peerfuzz", output=fout[-3000:], last_completed=last))
+        for fr in frecs:
+            since_probe = []
+            for fc in fr.get("cases") or []:
+                since_probe.append(fc["frames"])
+                if fc["sibling"] != "ok":
+                    fc["frames_since_last_good_probe"] = since_probe[-4:]
+                nfuzz += 1
+                fdist[("stream " if fc["stream"] else "message ") + fc["outcome"].split(":")[0]] += 1
+                if fc["outcome"] == "hang":
+                    monitor_hits += 1
+                    res.violation("peerfuzz-hang", "after frames %s from a raw peer the link's Link call does not return although its context is cancelled and the transport closed" % fc["frames"],
+                                  dict(kind="peerfuzz", seed=fr["seed"], case=fc))
+                if fc["sibling"] != "ok":
+                    monitor_hits += 1
+                    res.violation("peerfuzz-sibling", "after frames %s from a raw peer on one link, %s" % ([f[:80] for f in fc["frames"]], fc["sibling"]),
+                                  dict(kind="peerfuzz", seed=fr["seed"], case=fc))
+            for n in fr.get("notes") or []:
+                monitor_hits += 1
+                res.violation("peerfuzz-note", n, dict(kind="peerfuzz", seed=fr["seed"]))
+        total += nfuzz
+        dist.update(fdist)
     if getattr(res, "proof_broken", None):
         why, log = res.proof_broken
         res.violation("proof-broken", "proof obligations of %s no longer check: %s" % (pid, why),
